@@ -130,17 +130,19 @@ impl<L: Language> MultiPattern<L> {
             let x = x.trim();
             if x.is_empty() { continue }
 
+            let malformed = || ParseError::TokenState(x.to_string());
             let v: Box<[&str]> = x.split("==").collect();
-            assert_eq!(v.len(), 2);
+            if v.len() != 2 { return Err(malformed()) }
             let var: Pattern<L> = Pattern::parse(v[0])?;
             let rhs: Pattern<L> = Pattern::parse(v[1])?;
-            let Pattern::PVar(v) = var else { panic!("{var} isn't a PVar") };
-            let Pattern::ENode(n, children) = rhs else { panic!("{rhs} isn't an e-node") };
-            let children = children.into_iter().map(|x| {
-                let Pattern::PVar(xx) = x else { panic!("child {x} isn't a PVar") };
-                xx
-            }).collect();
-            out.push((v, n, children));
+            let Pattern::PVar(v) = var else { return Err(malformed()) };
+            let Pattern::ENode(n, children) = rhs else { return Err(malformed()) };
+            let mut pvar_children = Vec::new();
+            for c in children {
+                let Pattern::PVar(xx) = c else { return Err(malformed()) };
+                pvar_children.push(xx);
+            }
+            out.push((v, n, pvar_children));
         }
         Ok(MultiPattern { pats: out })
     }
